@@ -4,13 +4,16 @@ use super::phys::{self, EPS};
 use crate::engine::{self, Ctx, Failure, Spec, Tape, Tier};
 use crate::fail;
 use crate::gen::{self, Phys, PhysOpts, ONE_M};
+use crate::oracle::graph::Q;
 use crate::oracle::lin;
+use crate::scalars::exq::Xq;
+use num::Zero;
 use crate::sut::{self, BuildErr, Decomp, Mat, SutErr};
 use crate::with_d;
 use serde::{Deserialize, Serialize};
 use std::time::Instant;
 
-pub const RULE: &str = "cases (matrix) = symmetric matrices of dimension 1..8: SPD (all C15 classes), indefinite (SPD minus a multiple of the identity, or with a negated row/column), exactly singular positive semi-definite small-integer Q Q^T with a zero LAST pivot scaled by a power of two (all Cholesky arithmetic exact => ZeroDet is required), semi-definite with an interior zero pivot, the 2x2 [[1,2],[2,1]] family, ill-conditioned Hilbert-like; stability tolerance None, 10^(-12..2), or an extreme of the type (+inf, f64::MAX, 5e-324, 0, -0, negative, NaN); power-of-four diagonal matrices whose residual is exactly 0. oracle: Ok => determinant != 0; required-ZeroDet class must give ZeroDet; with Some(tol): Ok => no NaN anywhere in the decomposition and the L_{2,1} distance between inverse*matrix and the identity, recomputed in exact rational arithmetic from the returned inverse, <= tol(1+1e-9) + rounding slack of the residual evaluation. cases (sample) = accepted graphs sampled with the stability test enabled at points containing 0, subnormal and 1-2^-53 coordinates: an Ok sample has a NaN-free decomposition meeting the same bound. non-trivial = the matrix is not (SPD with cond<=1e6), or the sample point has an exact-zero / extreme coordinate; distinct = distinct case encodings";
+pub const RULE: &str = "cases (matrix) = symmetric matrices of dimension 1..8: SPD (all C15 classes), indefinite (SPD minus a multiple of the identity, or with a negated row/column), exactly singular positive semi-definite small-integer Q Q^T with a zero LAST pivot scaled by a power of two (all Cholesky arithmetic exact => ZeroDet is required), semi-definite with an interior zero pivot, the 2x2 [[1,2],[2,1]] family, ill-conditioned Hilbert-like; stability tolerance None, 10^(-12..2), or an extreme of the type (+inf, f64::MAX, 5e-324, 0, -0, negative, NaN); power-of-four diagonal matrices whose residual is exactly 0; direct sums of small exact SPD blocks each at its own power-of-two scale down to subnormal (parts of the inverse overflow); exact-ring scalar route: positive-definite dyadic matrices of dimension 1..8 decomposed with a user scalar whose + - * are exact and whose sqrt and / are rounded to 16 bits, so that the routine's own evaluation of the distance is accurate to 1.6e-5 in any summation order: the residual d of the untested result is computed exactly and the call is repeated with tolerances d*r, r in {0.5, 0.9, 0.999, 1.001, random}: every r <= 1-3e-4 must be refused. oracle: Ok => determinant != 0; required-ZeroDet class must give ZeroDet; with Some(tol): Ok => no NaN anywhere in the decomposition and the L_{2,1} distance between inverse*matrix and the identity, recomputed in exact rational arithmetic from the returned inverse, <= tol(1+1e-9) + rounding slack of the residual evaluation. cases (sample) = accepted graphs sampled with the stability test enabled at points containing 0, subnormal and 1-2^-53 coordinates: an Ok sample has a NaN-free decomposition meeting the same bound. non-trivial = the matrix is not (SPD with cond<=1e6), or the sample point has an exact-zero / extreme coordinate; distinct = distinct case encodings";
 
 #[derive(Clone, Debug, Serialize, Deserialize)]
 pub struct Case {
@@ -36,7 +39,38 @@ pub fn gen_case(t: &mut Tape, tier: Tier) -> Option<Case> {
         _ => Some(*t.pick(&[f64::INFINITY, f64::MAX, 1e300, 5e-324, 1e-300, 1.0, 0.0, -0.0, -1.0, -1e-300, f64::NAN, f64::NEG_INFINITY])),
     };
     let mut require = false;
-    let (a, class): (Mat, &'static str) = match t.below(9) {
+    let (a, class): (Mat, &'static str) = match t.below(10) {
+        9 => {
+            // direct sum of small exact SPD blocks, each at its own extreme power-of-two scale (incl. subnormal):
+            // pivots finite, the pivot product need not under/overflow, but parts of the inverse may
+            let n = t.range(2, 8);
+            let mut a = vec![vec![0.0f64; n]; n];
+            let mut start = 0;
+            while start < n {
+                let len = t.range(1, (n - start).min(3));
+                let k = match t.weighted(&[0.4, 0.25, 0.35]) {
+                    0 => -(t.range(990, 1074) as i32),
+                    1 => t.range(900, 1020) as i32,
+                    _ => *t.pick(&[-600i32, -300, -1, 0, 0, 1, 300, 500]),
+                };
+                let m: Vec<Vec<f64>> = (0..len).map(|_| (0..len).map(|_| t.range(0, 4) as f64 - 2.0).collect()).collect();
+                for i in 0..len {
+                    for j in 0..len {
+                        let v = (0..len).map(|q_| m[i][q_] * m[j][q_]).sum::<f64>() + if i == j { 1.0 } else { 0.0 };
+                        let (h1, h2) = (k / 2, k - k / 2);
+                        a[start + i][start + j] = v * 2f64.powi(h1) * 2f64.powi(h2);
+                    }
+                }
+                start += len;
+            }
+            for i in 0..n {
+                for j in 0..i {
+                    // the scaling of a symmetric block is symmetric; make sure of it even when subnormal rounding occurred
+                    a[i][j] = a[j][i];
+                }
+            }
+            (a, "block-diagonal:independent-extreme-scales")
+        }
         8 => {
             // power-of-two diagonal: every operation of the routine is exact, the residual is exactly 0
             let n = t.range(1, 8);
@@ -179,6 +213,8 @@ pub fn check_decomp_ok(a: &Mat, d: &Decomp, tol: Option<f64>, what: &str) -> Res
             fail!(format!("{pre}ok-with-nan"), "{what}: stability test Some({tol:e}) but an Ok decomposition contains NaN: det={} inverse={:?} for matrix {a:?}", d.det, d.inv);
         }
         match exact_residual(a, &d.inv) {
+            // an infinite tolerance admits an infinite distance: nothing to decide
+            None if tol == f64::INFINITY => {}
             None => fail!(format!("{pre}ok-with-nonfinite"), "{what}: stability test Some({tol:e}) but the Ok inverse is not finite: {:?} for {a:?}", d.inv),
             Some((exact, slack)) => {
                 if !(exact <= tol * (1.0 + 1e-9) + slack) {
@@ -330,16 +366,185 @@ pub fn check_sample(c: &SCase, ctx: &mut Ctx) -> Result<(), Failure> {
     with_d!(c.p.g.d, sample_d(c, ctx))
 }
 
+// ------------------------------------------------------------------ exact-arithmetic scalar route
+/// The stability test decided with the exact-rational scalar `Xq` (exact + - *, 16-bit sqrt and /): the value the routine
+/// computes for the L_{2,1} distance can then differ from the exact distance only through the square roots of the
+/// column norms (relative 1.6e-5), whatever the order of its sums, so tolerances just below the exact distance
+/// (down to a factor 1 - 1e-3) must be refused. In f64 that window is hidden by the rounding slack.
+#[derive(Clone, Debug, Serialize, Deserialize)]
+pub struct XCase {
+    pub a: Mat,
+    pub ratios: Vec<f64>,
+    #[serde(default)]
+    pub class: String,
+}
+
+pub fn gen_xcase(t: &mut Tape, _tier: Tier) -> Option<XCase> {
+    let n = *t.pick(&[1usize, 2, 3, 4, 5, 6, 7, 8, 7, 8, 6, 5, 7, 8]);
+    let class;
+    let mut a = vec![vec![0.0f64; n]; n];
+    match t.below(3) {
+        0 => {
+            // M M^T + c I with small integers
+            class = "int:MMt+cI";
+            let dens = t.uniform(0.3, 1.0);
+            let m: Vec<Vec<f64>> = (0..n).map(|_| (0..n).map(|_| if t.chance(dens) { t.range(0, 6) as f64 - 3.0 } else { 0.0 }).collect()).collect();
+            let c = t.range(1, 3) as f64;
+            for i in 0..n {
+                for j in 0..n {
+                    a[i][j] = (0..n).map(|k| m[i][k] * m[j][k]).sum::<f64>() + if i == j { c } else { 0.0 };
+                }
+            }
+        }
+        1 => {
+            // strictly diagonally dominant with dyadic entries: columns of very different residual
+            class = "dyadic:diag-dominant";
+            for i in 0..n {
+                for j in 0..i {
+                    let v = if t.chance(0.6) { (t.range(0, 16) as f64 - 8.0) / 8.0 } else { 0.0 };
+                    a[i][j] = v;
+                    a[j][i] = v;
+                }
+            }
+            for i in 0..n {
+                let s: f64 = (0..n).filter(|&j| j != i).map(|j| a[i][j].abs()).sum();
+                a[i][i] = s + (t.range(1, 32) as f64) / 8.0;
+            }
+        }
+        _ => {
+            // loop-momentum-like: sum_e x_e s_e s_e^T with dyadic x_e and signature entries in {-1,0,1}
+            class = "dyadic:L-matrix-like";
+            let ne = n + t.range(0, 6);
+            for e in 0..ne {
+                let x = (t.range(1, 64) as f64) / 16.0;
+                let s: Vec<f64> = (0..n).map(|l| if e < n && l == e { 1.0 } else if t.chance(0.35) { *t.pick(&[1.0, -1.0]) } else { 0.0 }).collect();
+                for i in 0..n {
+                    for j in 0..n {
+                        a[i][j] += x * s[i] * s[j];
+                    }
+                }
+            }
+        }
+    }
+    let k = t.range(0, 12) as i32 - 6;
+    for row in a.iter_mut() {
+        for v in row.iter_mut() {
+            *v *= 2f64.powi(k);
+        }
+    }
+    let mut ratios = vec![0.5, 0.9, 0.999, 1.001];
+    ratios.push(if t.bool() { t.uniform(0.01, 0.999) } else { 1.0 - 10f64.powf(t.uniform(-3.0, -0.3)) });
+    // reference-side rejection (counted): the route needs an exactly positive-definite matrix
+    if !lin::from_f64(&a).map(|m| lin::is_spd(&m)).unwrap_or(false) {
+        return None;
+    }
+    Some(XCase { a, ratios, class: class.into() })
+}
+
+fn xq_decompose(a: &Mat, stab: Option<f64>) -> Result<Result<(lin::QMat, Q), SutErr>, String> {
+    let n = a.len();
+    let mut m = momtrop::matrix::SquareMatrix::new_zeros_from_num(&Xq::f(0.0), n);
+    for i in 0..n {
+        for j in 0..n {
+            m[(i, j)] = Xq::f(a[i][j]);
+        }
+    }
+    let st = sut::settings(stab, false, false);
+    match std::panic::catch_unwind(std::panic::AssertUnwindSafe(|| m.decompose_for_tropical(&st))) {
+        Ok(Ok(d)) => Ok(Ok(((0..n).map(|i| (0..n).map(|j| d.inverse[(i, j)].0.clone()).collect()).collect(), d.determinant.0.clone()))),
+        Ok(Err(momtrop::matrix::MatrixError::ZeroDet)) => Ok(Err(SutErr::ZeroDet)),
+        Ok(Err(momtrop::matrix::MatrixError::Unstable)) => Ok(Err(SutErr::Unstable)),
+        Err(_) => Err(engine::take_panic()),
+    }
+}
+
+pub fn check_x(c: &XCase, ctx: &mut Ctx) -> Result<(), Failure> {
+    let a = &c.a;
+    let n = a.len();
+    if n == 0 || n > 8 || a.iter().any(|r| r.len() != n) || a.iter().flatten().any(|x| !x.is_finite()) || c.ratios.iter().any(|r| !(r.is_finite() && *r > 0.0)) {
+        fail!("bad-case", "not a finite square matrix of dimension 1..8 with positive ratios");
+    }
+    for i in 0..n {
+        for j in 0..n {
+            if a[i][j] != a[j][i] {
+                fail!("bad-case", "matrix not symmetric");
+            }
+        }
+    }
+    let Some(aq) = lin::from_f64(a) else { fail!("bad-case", "non-finite") };
+    if !lin::is_spd(&aq) {
+        fail!("bad-case", "exact-scalar route needs a positive-definite matrix");
+    }
+    match c15::exact_info(a) {
+        Some((_, _, _, cond)) if cond <= 1e4 => {}
+        _ => {
+            ctx.label("xq:skip-cond>1e4");
+            return Ok(());
+        }
+    }
+    ctx.label(format!("xq:class:{}", c.class));
+    ctx.label(format!("xq:n={n}"));
+    let (inv, det) = match xq_decompose(a, None) {
+        Ok(Ok(x)) => x,
+        Ok(Err(e)) => fail!("xq-rejected", "decompose_for_tropical::<exact dyadic + - *, 16-bit sqrt and /> returned {e:?} without a stability test for a positive-definite matrix of condition <= 1e4: {a:?}"),
+        Err(p) if p.contains("xq-") => {
+            ctx.label("xq:skip-scalar-domain");
+            return Ok(());
+        }
+        Err(p) => fail!("xq-panic", "decompose_for_tropical::<exact rational> panicked ({p}) on {a:?}"),
+    };
+    if det.is_zero() {
+        fail!("ok-with-zero-det", "exact-scalar route: Ok with determinant 0 for {a:?}");
+    }
+    let res = lin::sub(&lin::matmul(&inv, &aq), &lin::identity(n));
+    let d = lin::l21(&res);
+    if !(d > 0.0 && d.is_finite()) {
+        ctx.label("xq:residual-exactly-zero");
+        return Ok(());
+    }
+    ctx.max("xq_residual", d);
+    let mut refused = 0;
+    for &r in &c.ratios {
+        let tol = d * r;
+        if !(tol > 0.0 && tol.is_finite()) {
+            continue;
+        }
+        match xq_decompose(a, Some(tol)) {
+            Ok(Ok((inv2, _))) => {
+                let d2 = lin::l21(&lin::sub(&lin::matmul(&inv2, &aq), &lin::identity(n)));
+                if d2 * (1.0 - 3e-4) > tol {
+                    fail!("ok-but-unstable", "exact-scalar route (exact + - *, 16-bit sqrt and /: the evaluation of the distance is accurate to 1.6e-5 in any summation order): stability test Some({tol:e}) passed although the exact L_2,1 distance of inverse*matrix from the identity is {d2:e} = tolerance/{:.6}; matrix {a:?}", tol / d2);
+                }
+                ctx.label(if r < 1.0 { "xq:ok(within-3e-4)" } else { "xq:ok(tolerance-above-distance)" });
+            }
+            Ok(Err(SutErr::Unstable)) => {
+                refused += 1;
+                ctx.label(if r < 1.0 { "xq:refused(tolerance-below-distance)" } else { "xq:refused(tolerance-above-distance)" });
+            }
+            Ok(Err(e)) => fail!("xq-rejected", "exact-scalar route: {e:?} with Some({tol:e}) although the same matrix decomposed without the test: {a:?}"),
+            Err(p) if p.contains("xq-") => ctx.label("xq:skip-scalar-domain"),
+            Err(p) => fail!("xq-panic", "decompose_for_tropical::<exact rational> panicked ({p}) on {a:?} with Some({tol:e})"),
+        }
+    }
+    if refused > 0 && n >= 2 {
+        ctx.nontrivial();
+    }
+    Ok(())
+}
+
 #[derive(Clone, Debug, Serialize, Deserialize)]
 #[serde(untagged)]
 pub enum Any {
     Sample(SCase),
+    /// before `Matrix`: untagged decoding takes the first variant that fits, and `ratios` is required here
+    Exact(XCase),
     Matrix(Case),
 }
 pub fn check_any(c: &Any, ctx: &mut Ctx) -> Result<(), Failure> {
     match c {
         Any::Matrix(m) => check(m, ctx),
         Any::Sample(s) => check_sample(s, ctx),
+        Any::Exact(x) => check_x(x, ctx),
     }
 }
 
@@ -351,8 +556,12 @@ pub fn run(tier: Tier, seed: u64) -> i32 {
     let st2 = engine::run_spec(&sp2, tier, seed ^ 0x1616);
     let n2 = st2.evaluations;
     stats.merge(st2);
+    let sp3 = Spec { id: "C16", rule: RULE, tape_len: 400, cases: tier.pick(1_600, 60_000), gen: gen_xcase, check: check_x, max_shrink_iters: 300, shards: 16 };
+    let st3 = engine::run_spec(&sp3, tier, seed ^ 0x1617);
+    let n3 = st3.evaluations;
+    stats.merge(st3);
     engine::run_regressions::<Any>("C16", check_any, &mut stats);
-    engine::finish("C16", tier, seed, RULE, stats, t0, serde_json::json!({"sample_cases": n2}), &["exact rational recomputation of inverse*matrix - identity", "rounding slack 4(n+2) eps ||inverse||matrix| + I|_{2,1} for the f64 evaluation inside the test"])
+    engine::finish("C16", tier, seed, RULE, stats, t0, serde_json::json!({"sample_cases": n2, "exact_scalar_cases": n3}), &["exact rational recomputation of inverse*matrix - identity", "rounding slack 4(n+2) eps ||inverse||matrix| + I|_{2,1} for the f64 evaluation inside the test"])
 }
 pub fn replay(path: &str) -> i32 {
     engine::replay_file::<Any>("C16", path, check_any)
